@@ -1,5 +1,6 @@
 import HpxVerif.Lemmas.CoverLemmas
 import HpxVerif.Lemmas.ConeReal
+import HpxVerif.Props.C16
 
 /-!
 # C05 — cone coverage never misses a cell that the cone touches
@@ -73,5 +74,14 @@ theorem cone_scheme_no_miss_real (cfg : Cfg) (lon lat r : ℝ) (hr : 0 ≤ r) (d
     (q : ℝ × ℝ) (hq : inCell ds root q) (hin : adist (lon, lat) q ≤ r) :
     ∃ c ∈ out, inCell c.depth c.hash q :=
   cone_scheme_no_miss cfg lon lat r hr dists hD inCell target ds hcover H1 fuel root out h q hq hin
+
+/-- the table of limits that selects the starting depth is regular (each depth halves the limit, relative excess
+    `≈ 0.05·2^-k`): the obligation of C16 about the constants of the source, required here because the start cells of this
+    coverage are chosen with that table -/
+theorem start_depth_table_regular :
+    (∀ j, j < 24 →
+      C16.dyHalvingLo (j + 2) 1 25 (Gen.smallerEdge2OpEdgeDistDyadic.getD (j + 2) (0, 0)) (Gen.smallerEdge2OpEdgeDistDyadic.getD (j + 3) (0, 0)) = true ∧
+      C16.dyHalvingHi (j + 2) 1 10 (Gen.smallerEdge2OpEdgeDistDyadic.getD (j + 2) (0, 0)) (Gen.smallerEdge2OpEdgeDistDyadic.getD (j + 3) (0, 0)) = true) :=
+  C16.table_halving.1
 
 end Hpx.C05
